@@ -2,6 +2,8 @@
 
 package memory
 
+import "sync"
+
 // verifRWMutex replaces sync.RWMutex in a REWRITTEN copy of peer_store.go (made by ./check at
 // build time from the current source: the type token sync.RWMutex -> verifRWMutex, nothing else).
 // It simulates the lock state itself and parks the calling goroutine in the driver's cooperative
@@ -13,14 +15,17 @@ package memory
 var VerifYield func(enabled func() bool)
 
 type verifRWMutex struct {
+	real    sync.RWMutex // used whenever no schedule is being explored (ordinary concurrent use)
 	readers int
 	writer  bool
 }
 
 func (m *verifRWMutex) Lock() {
-	if VerifYield != nil {
-		VerifYield(func() bool { return !m.writer && m.readers == 0 })
+	if VerifYield == nil {
+		m.real.Lock()
+		return
 	}
+	VerifYield(func() bool { return !m.writer && m.readers == 0 })
 	if m.writer || m.readers != 0 {
 		panic("verif: Lock acquired while held (scheduler bug or lock used outside a schedule)")
 	}
@@ -28,19 +33,23 @@ func (m *verifRWMutex) Lock() {
 }
 
 func (m *verifRWMutex) Unlock() {
+	if VerifYield == nil {
+		m.real.Unlock()
+		return
+	}
 	if !m.writer {
 		panic("verif: Unlock of unlocked mutex")
 	}
 	m.writer = false
-	if VerifYield != nil {
-		VerifYield(nil)
-	}
+	VerifYield(nil)
 }
 
 func (m *verifRWMutex) RLock() {
-	if VerifYield != nil {
-		VerifYield(func() bool { return !m.writer })
+	if VerifYield == nil {
+		m.real.RLock()
+		return
 	}
+	VerifYield(func() bool { return !m.writer })
 	if m.writer {
 		panic("verif: RLock acquired while write-locked")
 	}
@@ -48,13 +57,15 @@ func (m *verifRWMutex) RLock() {
 }
 
 func (m *verifRWMutex) RUnlock() {
+	if VerifYield == nil {
+		m.real.RUnlock()
+		return
+	}
 	if m.readers <= 0 {
 		panic("verif: RUnlock of unlocked mutex")
 	}
 	m.readers--
-	if VerifYield != nil {
-		VerifYield(nil)
-	}
+	VerifYield(nil)
 }
 
 // VerifNoWriter reports whether no shard is write-locked (an instant a reader can observe).
